@@ -336,7 +336,15 @@ func c03E2E(r *vlib.Run) {
 		}
 		p := filepath.Join(dir, fmt.Sprintf("g%d.log", i))
 		os.WriteFile(p, []byte(body), 0644)
-		ecs = append(ecs, ecase{c: c, ssh: fl != nil && rng.Intn(3) == 0, path: p})
+		ssh := fl != nil && rng.Intn(3) == 0
+		if i%4 == 1 && fl != nil && !isNoopPattern(ecs[i-1].c.Pattern) {
+			// history on one server process: the pattern of the previous case
+			// again, with the opposite flag (and other context values)
+			c.Pattern, c.Invert = ecs[i-1].c.Pattern, !ecs[i-1].c.Invert
+			ecs[i-1].ssh, ssh = true, true
+			r.Count("e2e_pairs_same_pattern_opposite_flag_same_server", 1)
+		}
+		ecs = append(ecs, ecase{c: c, ssh: ssh, path: p})
 	}
 	vlib.Parallel(len(ecs), 12, func(i int) {
 		e := ecs[i]
